@@ -354,6 +354,14 @@ theorem torus_bounded (sq : K → K) (hsq : SqrtOK sq) (eps : K) (heps : 0 < eps
 /-- `rectset_bounded`: `rectSetSolid` (a tree of `InBounds`-guarded splits over single rects). -/
 theorem rectset_bounded (t : RectTree K) : Bounded (rectSetS t) := rectSet_bounded t
 
+/-- `ramp_bounded`: `toolbox3d.Ramp` — every point `Contains` accepts (off the plane through `P1`
+where the code divides by zero) is a convex combination `(1-t)²·P1 + t(1-t)·P2 + t·m` of the axis end
+points and a point `m` of the wrapped solid, hence inside the hull box the repaired `Min()/Max()`
+report (the original code reported the wrapped solid's box: defect fixed in /repo b97dbc9). -/
+theorem ramp_bounded (s : Solid K) (hs : Bounded s) (h3 : s.d3 = true) (p1 p2 c : Pt K)
+    (hne : pdot (psub p2 p1) (psub c p1) ≠ 0) (hc : rampContains s p1 p2 c = true) :
+    InBox true (rampS s p1 p2).box c := ramp_bounded' s hs h3 p1 p2 c hne hc
+
 /-! ## Non-vacuity -/
 
 /-- the hypotheses about the square root are satisfiable: `Real.sqrt` -/
